@@ -371,11 +371,100 @@ def run(ctx, anchors=None):
                  "%s pushes a value computed from CScriptNum-decoded operands (%d decoded occurrence(s))" % (sn, ndec),
                  "%s pushes %s: the operand's bytes reach the result without being decoded as a script number and without any test of the sign bit - "
                  "for a sign-magnitude encoding that cannot be the signed-integer function (e.g. -1 is 0x81; shifting its bytes gives 0x0201 = 258, not -2)" % (sn, bad))
+    # ---- R17.7 / R17.8 two-operand string and bitwise opcodes, on the G-SYM paths of StepExtended per opcode: the value a
+    # successful path pushes mentions BOTH operands (a concatenation / bitwise combination that drops one of them on some path is
+    # not the function), and the bitwise ones succeed only after deciding that the operands have equal length.
+    ctx.rule("R17.7", "CAT, AND, OR, XOR: the pushed value depends on both operands on every successful path")
+    ctx.rule("R17.8", "AND, OR, XOR succeed only when the operand lengths were decided equal")
+
+    def explore_op(sn):
+        k = vals.get(sn)
+        if k is None:
+            raise AnalysisBroken("R17.7: value of %s not found" % sn)
+
+        def assume(term, conds, k=k):
+            if isinstance(term, tuple) and term[0] == "eq":
+                for a, b in ((term[1], term[2]), (term[2], term[1])):
+                    if symx.is_const(b) and isinstance(a, tuple) and a[0] == "f" and a[2] == "opcode":
+                        return b[1] == k
+            return None
+        X = symx.Explorer(prog, assume=assume, inline=lambda fn, n: fn.file == ext.file and fn.rec is None, transparent=lambda n: n.get("mrec") != "CScriptNum")
+        try:
+            return X.explore(ext, params={ext.params[0]["n"]: ("a", "env")})
+        except symx.Unsupported as e:
+            raise AnalysisBroken("R17.7: %s: %s" % (sn, e))
+
+    def operand(t, depth):
+        """is t the stack element `depth` below the top (stack.at(size - depth) / stacktop(-depth))"""
+        if not (isinstance(t, tuple) and t[0] == "ap" and t[1] in ("m:at", "[]") and len(t) == 4):
+            return False
+        if not any(isinstance(y, tuple) and y[0] == "f" and y[2] == "stack" for y in symx.subterms(t[2])):
+            return False
+        c0, parts = symx.lin_parts(t[3])
+        return c0 == -depth and len(parts) == 1 and list(parts.values()) == [1] and list(parts.keys())[0][:2] == ("ap", "m:size")
+    for sn in ("OP_CAT", "OP_AND", "OP_OR", "OP_XOR"):
+        if sn not in {x.split("::")[-1] for x in handled}:
+            continue
+        succ = [o for o in explore_op(sn) if o.ret == symx.C(1)]
+        if not succ:
+            raise AnalysisBroken("R17.7: no successful path of StepExtended for %s" % sn)
+        ctx.site(len(succ))
+        bad = None
+        noeq = 0
+        for o in succ:
+            pushed = [e.terms[1] for e in o.events if e.kind == "mcall" and e.name in ("push_back", "emplace_back") and len(e.terms) == 2 and
+                      any(isinstance(y, tuple) and y[0] == "f" and y[2] == "stack" for y in symx.subterms(e.terms[0]))]
+            if not pushed:
+                # computed in place: the result is what the path left in the slot of the first operand (a reference bound to it)
+                def slot(v):
+                    while isinstance(v, tuple) and v[0] == "ap" and v[1].startswith("mut:") and len(v) >= 3:
+                        v = v[2]
+                    return operand(v, 2)
+                inplace = [v for v in o.store.values() if slot(v)]
+                if not inplace:
+                    raise AnalysisBroken("R17.7: the successful path of %s neither pushes a value nor works on the first operand in place" % sn)
+                pushed = [sorted(inplace, key=lambda v: len(repr(v)))[-1]]
+            # what the pushed value is built from: its own term, plus the arguments of library algorithms (std::transform, std::copy
+            # ...) that were handed the pushed container - they write through iterators, which the term engine does not follow
+            pool = [pushed[-1]]
+            for e in o.events:
+                if e.kind == "call" and e.name not in ("push_back",) and any(operand(y, 2) or operand(y, 1) for t_ in e.terms for y in symx.subterms(t_)) and \
+                        not (e.name or "").startswith("btc_") and e.name not in ("HexStr", "?", "_popstack", "popstack", "set_error"):
+                    pool += list(e.terms)
+            has1 = any(operand(y, 2) for t_ in pool for y in symx.subterms(t_))
+            has2 = any(operand(y, 1) for t_ in pool for y in symx.subterms(t_))
+            def decided_empty(depth):
+                for (t, v) in o.conds:
+                    if v and isinstance(t, tuple) and t[:2] == ("ap", "m:empty") and operand(t[2], depth):
+                        return True
+                    if v and isinstance(t, tuple) and t[0] == "eq" and symx.C(0) in t[1:] and any(isinstance(x, tuple) and x[:2] == ("ap", "m:size") and operand(x[2], depth) for x in t[1:]):
+                        return True
+                    if (not v) and isinstance(t, tuple) and t[:2] == ("ap", "m:size") and operand(t[2], depth):
+                        return True
+                return False
+            # an operand the path decided to be empty contributes nothing to a concatenation: leaving it out is the function
+            if sn == "OP_CAT":
+                has1 = has1 or decided_empty(2)
+                has2 = has2 or decided_empty(1)
+            if not (has1 and has2):
+                bad = (symx.show(pushed[-1])[:100], "first" if not has1 else "second",
+                       [("" if v else "!") + symx.show(t)[:60] for (t, v) in o.conds if "opcode" not in symx.show(t)][-2:])
+            if sn != "OP_CAT":
+                eqd = any(v and isinstance(t, tuple) and t[0] == "eq" and all(isinstance(x, tuple) and x[:2] == ("ap", "m:size") and (operand(x[2], 1) or operand(x[2], 2)) for x in t[1:]) for (t, v) in o.conds)
+                noeq += 0 if eqd else 1
+        ctx.inst(bad is None, "R17.7", "both-operands:" + sn, ext.loc(), "%s: every successful path pushes a value built from both operands" % sn,
+                 "%s: on the path %s the pushed value %s does not depend on the %s operand" % ((sn, bad[2], bad[0], bad[1]) if bad else (sn, "", "", "")))
+        if sn != "OP_CAT":
+            ctx.inst(noeq == 0, "R17.8", "equal-lengths:" + sn, ext.loc(), "%s succeeds only on paths that decided size(x1) == size(x2)" % sn,
+                     "%s can succeed without having decided that both operands have the same length (%d successful path(s)): operands of unequal length must fail with a script error" % (sn, noeq))
     ctx.extra["gate_labels"] = sorted(x.split("::")[-1] for x in gate_labels)
     ctx.extra["handled_labels"] = sorted(x.split("::")[-1] for x in handled)
 
 
 MUTANTS = [
+    dict(name="cat-drops-operand-when-empty", file="debugger/interpreter.cpp", find="        vch1.insert(vch1.end(), vch2.begin(), vch2.end());", replace="        if (!vch1.empty() && !vch2.empty()) vch1.insert(vch1.end(), vch2.begin(), vch2.end());", expect=["R17.7:both-operands:OP_CAT"]),
+    dict(name="cat-result-is-second-operand-only", file="debugger/interpreter.cpp", find="        vch1.insert(vch1.end(), vch2.begin(), vch2.end());", replace="        if (vch2.size() > 520) vch1.insert(vch1.end(), vch2.begin(), vch2.end());", expect=["R17.7:both-operands:OP_CAT"]),
+    dict(name="bitwise-length-test-one-sided", file="debugger/interpreter.cpp", find="if (vch1.size() != vch2.size()) return set_error(serror, SCRIPT_ERR_UNKNOWN_ERROR);", replace="if (vch1.size() > vch2.size()) return set_error(serror, SCRIPT_ERR_UNKNOWN_ERROR);", expect=["R17.8:equal-lengths"]),
     dict(name="2mul-on-raw-bytes", file="debugger/interpreter.cpp", find="            CScriptNum num(vch1, env.fRequireMinimal, 5);\n            num = num * CScriptNum(2);\n            vch1 = num.getvch();\n",
          replace="            uint16_t carry = 0;\n            for (size_t i = 0; i < vch1.size(); ++i) { uint16_t v = vch1[i]; v = (v << 1) | carry; carry = v >> 8; vch1[i] = v & 0xff; }\n            if (carry) vch1.push_back(carry);\n",
          expect=["R17.6:decoded-operands:OP_2MUL"]),
